@@ -25,7 +25,7 @@ EXPLANATION = (
 NOT_DECIDED = ["that every bonded pair ends at its minimum-image separation (depends on bond graph order and cell, numerical)",
                "anchor heuristics (guess_anchor_molecules)"]
 ASSUMPTIONS = ["Trajectory.__getitem__ (self[:]) returns a deep copy (decided by C03-R1)", "roundf / floorf / np.round / np.floor return integer-valued floats"]
-FLOORS = {"C11-R1": 6, "C11-R2": 18, "C11-R3": 5, "C11-R4": 2}
+FLOORS = {"C11-R1": 6, "C11-R2": 18, "C11-R3": 5, "C11-R4": 2, "C11-R5": 3}
 
 PXI = "mdtraj/geometry/src/image_molecules.pxi"
 TRAJ = "mdtraj/core/trajectory.py"
@@ -39,6 +39,8 @@ def check(ctx):
                        "position stores have the form old -/+ accumulator (plus one per-frame common offset in wrap_mols)")
     ctx.rule("C11-R3", "no kernel writes through the cell argument; the callers pass np.asarray(result.unitcell_vectors) (a derived array)")
     ctx.rule("C11-R4", "sorted_bonds defaults to the bonds sorted by the first atom's index")
+    ctx.rule("C11-R5", "molecules are the connected components of the undirected bond graph")
+    r5_molecules(ctx)
 
     # ---------------- R1, R3(py), R4 ----------------------------------------------------------------
     for mname, kernel in (("make_molecules_whole", "_geometry.whole_molecules"), ("image_molecules", "_geometry.image_molecules")):
@@ -189,3 +191,30 @@ def check(ctx):
         ok = bool(cellp) and not any(i in fi.mut or i in fi.maybe for i in cellp)
         ctx.decide(ok, "C11-R3", fi.fn, PXI, fname, "cell parameter is never written", "written parameters: %s" % written,
                    "the kernel writes through its cell parameter (written: %s): unit cells are modified by re-imaging" % written)
+
+
+def r5_molecules(ctx):
+    """image_molecules treats the sets returned by Topology.find_molecules as rigid units: the search must be over the undirected bond graph."""
+    TOPF = "mdtraj/core/topology.py"
+    fn = ctx.py.func(TOPF, "Topology.find_molecules")
+    loops = [n for n in walk_no_nested(fn) if isinstance(n, ast.For) and src(n.iter) in ("self.bonds", "self._bonds")]
+    if not loops:
+        raise AnalysisError("find_molecules: loop over the bonds not found")
+    lp = loops[0]
+    tgt = [dotted(e) for e in lp.target.elts] if isinstance(lp.target, ast.Tuple) else []
+    apps = set()
+    for n in ast.walk(lp):
+        if isinstance(n, ast.Call) and isinstance(n.func, ast.Attribute) and n.func.attr == "append" and isinstance(n.func.value, ast.Subscript):
+            apps.add((src(n.func.value.slice), src(n.args[0])))
+    ok = len(tgt) == 2 and apps == {("%s.index" % tgt[0], "%s.index" % tgt[1]), ("%s.index" % tgt[1], "%s.index" % tgt[0])}
+    ctx.decide(ok, "C11-R5", lp, TOPF, "Topology.find_molecules", "adjacency lists hold both directions of every bond", str(sorted(apps)),
+               "the adjacency built from the bonds is %s: with one direction only, an atom whose bonded partners all have higher (or lower) indices starts a molecule of its own, "
+               "and image_molecules moves the pieces of one molecule by different lattice vectors" % sorted(apps))
+    # every atom receives a molecule: the outer loop ranges over all atoms and starts a search from each untagged one
+    outer = [n for n in walk_no_nested(fn) if isinstance(n, ast.For) and src(n.iter) == "range(num_atoms)"]
+    ok = bool(outer) and any(isinstance(n, ast.If) and src(n.test) == "atom_molecule[i] == -1" for n in outer[0].body)
+    ctx.decide(ok, "C11-R5", outer[0] if outer else fn, TOPF, "Topology.find_molecules", "a search starts from every atom not yet tagged", "", "not every atom is assigned to a molecule")
+    # the callers use find_molecules() for the units they move
+    im = ctx.py.func(TRAJ, "Trajectory.image_molecules")
+    ok = "self._topology.find_molecules()" in src(im) or "self.topology.find_molecules()" in src(im)
+    ctx.decide(ok, "C11-R5", im, TRAJ, "Trajectory.image_molecules", "rigid units come from find_molecules()", "", "image_molecules no longer takes its units from Topology.find_molecules")
